@@ -391,6 +391,69 @@ fn run_stdfs_transcript(ops: &[Op], ra: &str, rb: &str, rep: &mut Report, tag: &
     }
 }
 
+/// What other calls can see while a write / append handle obtained through the wrapper is still open must be what
+/// they see with a handle of the wrapped backend: bytes become visible at the same moments (write, flush, drop) and
+/// overlapping handles land in the same order
+fn handle_visibility<A: VirtualFileSystem, B: VirtualFileSystem>(direct: &A, wrapped: &B, da: &str, db: &str, name: &str, rep: &mut Report) {
+    fn script<V: VirtualFileSystem>(v: &V, dir: &str) -> Vec<String> {
+        use std::io::Write;
+        let mut obs = vec![];
+        let f = format!("{}/hv", dir);
+        let see = |v: &V, tag: &str, obs: &mut Vec<String>| {
+            obs.push(format!("{}: {:?}", tag, v.read_all(&f).map_err(|e| err_kind(&e))));
+        };
+        let _ = v.mkdir_p(dir);
+        let _ = v.remove(&f);
+        match v.write(&f) {
+            Ok(mut w) => {
+                see(v, "write handle open", &mut obs);
+                let _ = w.write_all(b"abcdef");
+                see(v, "after write(6 bytes), no flush", &mut obs);
+                let _ = w.flush();
+                see(v, "after flush", &mut obs);
+                let _ = w.write_all(b"gh");
+                see(v, "after write(2 more), no flush", &mut obs);
+                drop(w);
+                see(v, "after drop", &mut obs);
+            },
+            Err(e) => obs.push(format!("write(): Err {}", err_kind(&e))),
+        }
+        match (v.append(&f), v.append(&f)) {
+            (Ok(mut a1), Ok(mut a2)) => {
+                let _ = a1.write_all(b"1a ");
+                let _ = a2.write_all(b"2a ");
+                see(v, "two append handles, one write each", &mut obs);
+                let _ = a1.write_all(b"1b ");
+                drop(a1);
+                see(v, "first append handle dropped", &mut obs);
+                drop(a2);
+                see(v, "second append handle dropped", &mut obs);
+            },
+            _ => obs.push("append(): Err".into()),
+        }
+        if let Ok(mut w) = v.write(&f) {
+            let _ = w.write_all(&vec![b'z'; 20_000]);
+            obs.push(format!("after one write of 20000 bytes, no flush: {:?} bytes", v.read_all(&f).map(|s| s.len()).map_err(|e| err_kind(&e))));
+            let _ = w.write_all(b"tail");
+            drop(w);
+            obs.push(format!("after drop: {:?} bytes", v.read_all(&f).map(|s| s.len()).map_err(|e| err_kind(&e))));
+        }
+        let _ = v.remove(&f);
+        obs
+    }
+    rep.eval();
+    set_case(&format!("wrap:handles({}):returns→stalls", name), "handle visibility script");
+    let (o1, o2) = (script(direct, da), script(wrapped, db));
+    rep.key_str(&format!("handle-visibility:{}:{}", name, o1.len()));
+    rep.count("handle_visibility_scripts", 1);
+    if let Some(i) = (0..o1.len().max(o2.len())).find(|i| o1.get(*i) != o2.get(*i)) {
+        rep.violation(
+            &format!("wrap:open-handle({}):visible-bytes-same-as-wrapped→differ", name),
+            J::obj(vec![("step", J::Int(i as i64)), ("direct", J::s(o1.get(i).cloned().unwrap_or_default())), ("through_wrapper", J::s(o2.get(i).cloned().unwrap_or_default())), ("direct_all", J::strs(&o1)), ("wrapped_all", J::strs(&o2))]),
+        );
+    }
+}
+
 fn c13(ctx: &Ctx, rep: &mut Report) {
     std::env::set_var("HOME", HOME);
     let (sb, root) = Sandbox::nested("c13");
@@ -407,6 +470,10 @@ fn c13(ctx: &Ctx, rep: &mut Report) {
     let pass = boundary_pass();
     run_memfs_transcript(&pass, rep, "boundary-argument pass");
     run_stdfs_transcript(&pass, &ra, &rb, rep, "boundary-argument pass");
+    handle_visibility(&Stdfs::new(), &Vfs::stdfs(), &format!("{}/hvd", ra), &format!("{}/hvd", ra), "Vfs::Stdfs", rep);
+    handle_visibility(&Stdfs::new(), &Stdfs::new().upcast(), &format!("{}/hvd", ra), &format!("{}/hvd", ra), "Stdfs::upcast", rep);
+    handle_visibility(&Memfs::new(), &Vfs::memfs(), "/hvd", "/hvd", "Vfs::Memfs", rep);
+    handle_visibility(&Memfs::new(), &Memfs::new().upcast(), "/hvd", "/hvd", "Memfs::upcast", rep);
     let paths = namespace(&["a", "b", "c"], 3);
     let mut rng = ctx.rng("c13");
     let n = if ctx.thorough { 20_000 } else { 400 } / ctx.shards + 1;
